@@ -13,6 +13,7 @@ import (
 	"github.com/evolbioinfo/goalign/models/protein"
 	"pgregory.net/rapid"
 	"verif/internal/pbt"
+	"verif/internal/refmodels"
 )
 
 func TestMain(m *testing.M) {
@@ -28,112 +29,16 @@ const (
 	tMin, tMax = 1e-8, 100.0
 )
 
-// ---- small dense matrices (oracle side; nothing of goalign or gonum) ----------------------------
+// ---- the reference code (internal/refmodels: dense matrices, Taylor exponential, normalisation;
+// nothing of goalign's model code or gonum) ---------------------------------------------------------
 
-type matrix [][]float64
+type matrix = refmodels.Matrix
 
-func newMatrix(n int) matrix {
-	m := make(matrix, n)
-	for i := range m {
-		m[i] = make([]float64, n)
-	}
-	return m
-}
-
-func identity(n int) matrix {
-	m := newMatrix(n)
-	for i := range m {
-		m[i][i] = 1
-	}
-	return m
-}
-
-func mul(a, b matrix) matrix {
-	n := len(a)
-	c := newMatrix(n)
-	for i := 0; i < n; i++ {
-		ci := c[i]
-		for k := 0; k < n; k++ {
-			aik := a[i][k]
-			if aik == 0 {
-				continue
-			}
-			bk := b[k]
-			for j := 0; j < n; j++ {
-				ci[j] += aik * bk[j]
-			}
-		}
-	}
-	return c
-}
-
-// expm: exp(q*t) by scaling and squaring of a Taylor series. q*t/2^s has infinity norm <= 1, the
-// series is summed to the 30th power (remainder < 1e-32), the result is squared s times. Each squaring
-// of a stochastic matrix at most doubles the rounding error: with |q_ii| t <= 1e4 (s <= 15) the result is
-// exact to about 1e-11, which oracleSane verifies on the row sums.
-func expm(q matrix, t float64) matrix {
-	n := len(q)
-	norm := 0.0
-	for i := 0; i < n; i++ {
-		r := 0.0
-		for j := 0; j < n; j++ {
-			r += math.Abs(q[i][j])
-		}
-		if r > norm {
-			norm = r
-		}
-	}
-	norm *= t
-	s := 0
-	for norm > 1 {
-		norm /= 2
-		s++
-	}
-	a := newMatrix(n)
-	f := t / math.Pow(2, float64(s))
-	for i := 0; i < n; i++ {
-		for j := 0; j < n; j++ {
-			a[i][j] = q[i][j] * f
-		}
-	}
-	res := identity(n)
-	term := identity(n)
-	for k := 1; k <= 30; k++ {
-		term = mul(term, a)
-		for i := 0; i < n; i++ {
-			for j := 0; j < n; j++ {
-				term[i][j] /= float64(k)
-				res[i][j] += term[i][j]
-			}
-		}
-	}
-	for ; s > 0; s-- {
-		res = mul(res, res)
-	}
-	return res
-}
-
-// normalise scales q (off-diagonal entries given) to one expected substitution per unit time at
-// stationarity, -sum_i w_i q_ii = 1, and fills the diagonal
-func normalise(q matrix, w []float64) {
-	n := len(q)
-	mu := 0.0
-	for i := 0; i < n; i++ {
-		s := 0.0
-		for j := 0; j < n; j++ {
-			if j != i {
-				s += q[i][j]
-			}
-		}
-		q[i][i] = -s
-		mu += w[i] * s
-	}
-	for i := 0; i < n; i++ {
-		for j := 0; j < n; j++ {
-			q[i][j] /= mu
-		}
-	}
-}
+func newMatrix(n int) matrix          { return refmodels.NewMatrix(n) }
+func identity(n int) matrix           { return refmodels.Identity(n) }
+func mul(a, b matrix) matrix          { return refmodels.Mul(a, b) }
+func expm(q matrix, t float64) matrix { return refmodels.Expm(q, t) }
+func normalise(q matrix, w []float64) { refmodels.Normalise(q, w) }
 
 // ---- cases -----------------------------------------------------------------------------------------
 
@@ -174,37 +79,9 @@ func protCode(name string) int {
 
 // exchangeabilities and model frequencies as exported by goalign (data, not the judged code)
 func protData(name string) (s matrix, pi []float64) {
-	var at func(i, j int) float64
-	switch name {
-	case "dayhoff":
-		m, p := protein.DayoffMats()
-		at, pi = m.At, p
-	case "jtt":
-		m, p := protein.JTTMats()
-		at, pi = m.At, p
-	case "mtrev":
-		m, p := protein.MtREVMats()
-		at, pi = m.At, p
-	case "lg":
-		m, p := protein.LGMats()
-		at, pi = m.At, p
-	case "wag":
-		m, p := protein.WAGMats()
-		at, pi = m.At, p
-	case "hivb":
-		m, p := protein.HIVBMats()
-		at, pi = m.At, p
-	case "ab":
-		m, p := protein.ABMats()
-		at, pi = m.At, p
-	default:
-		panic("harness: unknown protein model " + name)
-	}
-	s = newMatrix(20)
-	for i := 0; i < 20; i++ {
-		for j := 0; j < 20; j++ {
-			s[i][j] = at(i, j)
-		}
+	s, pi, err := refmodels.ProtData(name)
+	if err != nil {
+		panic("harness: " + err.Error())
 	}
 	return
 }
